@@ -128,7 +128,7 @@ func c10ConcWorker(w *W) {
 				ti := r.IntN(3)
 				n := round*1_000_000 + g*10_000 + i
 				c := &c10call{id: fmt.Sprintf("id-conc%dx%d-%d", w.Spec.Shard, round, g*10_000+i), entry: en.name, level: en.level, tagIdx: ti,
-					t:  time.Date(2001+n%20, time.Month(1+n%12), 1+n%28, n%24, n%60, (n/60)%60, (n%1000)*1e6, time.UTC),
+					t:  time.Unix(978_307_200+int64(n/2)*86_461, int64(n%1000)*1e6).In(c10zones[n%len(c10zones)]),
 					cs: fmt.Sprintf("cs-%d", n), cf: fmt.Sprintf("cf-%d", n), enabled: lrs[ti].has(en.level.Code())}
 				if n%7 == 3 {
 					c.cs = ""
@@ -240,6 +240,10 @@ func c10ConcWorker(w *W) {
 					it := its[0]
 					s := string(it.JSON)
 					w.Count("records_checked", 1)
+					if ts := c.t.Format("2006-01-02T15:04:05.000"); !strings.Contains(s, `"time":"`+ts+`"`) {
+						bad = true
+						w.Violate("C10:record-time", fmt.Sprintf("concurrent logging: the formatted record does not show the hook's time %s: %s", ts, trunc(s, 200)), cs)
+					}
 					if !it.Time.Equal(c.t) {
 						bad = true
 						w.Violate("C10:record-time", fmt.Sprintf("concurrent logging: record carries time %v, the TimeNow hook returned %v for this call", it.Time, c.t), cs)
